@@ -353,9 +353,18 @@ impl ProcfsHandle {
         let subpath = subpath.as_ref();
         let mut oflags = oflags.into();
 
+        // Drop any trailing /-es.
+        let (subpath, trailing_slash) = utils::path_strip_trailing_slash(subpath);
+        if trailing_slash {
+            // A trailing / implies we want O_DIRECTORY.
+            oflags.insert(OpenFlags::O_DIRECTORY);
+        }
+
         // The final magic-link component is opened directly by us rather than by
         // the resolver (which refuses these flags), so we have to refuse them
-        // here -- a procfs lookup must never create anything.
+        // here -- a procfs lookup must never create anything. This has to look
+        // at the flags we are actually going to use: O_TMPFILE contains
+        // O_DIRECTORY, which a trailing / adds.
         if oflags.intersects(OpenFlags::O_CREAT | OpenFlags::O_EXCL)
             || oflags.contains(OpenFlags::O_TMPFILE)
         {
@@ -363,13 +372,6 @@ impl ProcfsHandle {
                 name: "flags".into(),
                 description: "creation flags cannot be used when opening a procfs path".into(),
             })?
-        }
-
-        // Drop any trailing /-es.
-        let (subpath, trailing_slash) = utils::path_strip_trailing_slash(subpath);
-        if trailing_slash {
-            // A trailing / implies we want O_DIRECTORY.
-            oflags.insert(OpenFlags::O_DIRECTORY);
         }
 
         // If the target is not a symlink, use an O_NOFOLLOW open. This defends
